@@ -318,6 +318,13 @@ func (vc *FnVC) applyContract(st *State, u *Unit, callee *ssa.Function, pkg *typ
 				vc.note("call to %s: unknown effects, whole heap havocked", short)
 			}
 			vc.havocSet(st, ws, all)
+		} else if u.ModInferred && callee == nil && c != nil {
+			// interface / func-field contract with `modifies inferred, ...`: the write sets of the possible targets
+			ws, all := vc.G.callWrites(vc.fn, c)
+			if all {
+				vc.note("call to %s: unknown effects, whole heap havocked", short)
+			}
+			vc.havocSet(st, ws, all)
 		}
 		for _, it := range u.Modifies {
 			k, ref, err := vc.modItem(env, it)
